@@ -71,10 +71,17 @@ def evaluate_table(run, table):
             "bad_pairs": pairs, "known": known}
 
 
-def always_held(rs):
-    """locks held at EVERY access of one side of an edge (the summary a known finding is keyed on:
-    dropping a lock on either side changes it even when the edge itself is already known)"""
-    sets = [{"%s:%s%s" % (h["lock"].split(".", 1)[1], "W" if h["ex"] else "R", "?" if h["cond"] else "") for h in r["held"]} for r in rs]
+def lock_names(r):
+    return {h["lock"].split(".", 1)[1] for h in r["held"]}
+
+
+def always_held(rs, relevant):
+    """locks held at EVERY access of one side of an edge, restricted to the locks the other side ever takes
+    around this field (only those could be a common lock).  A known finding is keyed on this summary: dropping
+    a lock that mattered changes it even when the edge itself is already known, while locks that cannot matter
+    (the other side never takes them) and source positions do not enter the signature."""
+    sets = [{"%s:%s%s" % (h["lock"].split(".", 1)[1], "W" if h["ex"] else "R", "?" if h["cond"] else "")
+             for h in r["held"] if h["lock"].split(".", 1)[1] in relevant} for r in rs]
     common = set.intersection(*sets) if sets else set()
     return "+".join(sorted(common)) or "-"
 
@@ -82,6 +89,9 @@ def always_held(rs):
 def table_edges(table, ev):
     """conflict edges of the table: (entry, entry, field) -> {"rps": row pairs that share no lock, "locks": "A|B"}"""
     rows = table["rows"]
+    taken = collections.defaultdict(set)          # (entry, field) -> every lock the entry ever holds at the field
+    for r in rows:
+        taken[(r["entry"], r["field"])] |= lock_names(r)
     edges = collections.OrderedDict()
     for i, j in ev["bad_pairs"]:
         ra, rb = rows[i], rows[j]
@@ -91,9 +101,9 @@ def table_edges(table, ev):
     for (e1, e2, f), d in edges.items():
         if e1 == e2:
             both = [r for pr in d["rps"] for r in pr]
-            d["locks"] = always_held(both) + "|" + always_held(both)
+            d["locks"] = always_held(both, taken[(e1, f)]) + "|" + always_held(both, taken[(e1, f)])
         else:
-            d["locks"] = always_held([pr[0] for pr in d["rps"]]) + "|" + always_held([pr[1] for pr in d["rps"]])
+            d["locks"] = always_held([pr[0] for pr in d["rps"]], taken[(e2, f)]) + "|" + always_held([pr[1] for pr in d["rps"]], taken[(e1, f)])
     return edges
 
 
@@ -324,8 +334,12 @@ def check(run):
         ra, rb = rps[0]
         case = {"entry": e1, "against": e2, "field": field, "locks": locks, "row_pairs": len(rps), "a": side(ra), "b": side(rb),
                 "seed": run.seed * 1000, "iter": n, "race_report": confirmed.get((e1, e2, field))}
-        desc = lambda r: "%s %s it at %s:%d holding %s" % (r["entry"], "writes" if r["write"] else "reads", r["sites"][0]["file"], r["sites"][0]["line"],
-                                                           [h["lock"] + ("" if not h["cond"] else " (if %s)" % h["cond"]) for h in r["held"]] or "no lock")
+        def desc(r):
+            st = r["sites"][0]
+            chain = [c.split("/")[-1] for c in (st.get("chain") or [])]
+            via = " (call path: %s)" % " > ".join(chain[-6:]) if len(chain) > 1 else ""
+            locks = [h["lock"] + ("" if not h["cond"] else " (if %s)" % h["cond"]) for h in r["held"]] or "no lock"
+            return "%s %s it at %s:%d%s holding %s" % (r["entry"], "writes" if r["write"] else "reads", st["file"], st["line"], via, locks)
         what = "%s: %s; %s -- no common lock held exclusively by either side" % (field, desc(ra), desc(rb))
         if (e1, e2, field) in confirmed:
             run.failing(sig, [case], what + "; exhibited by the race detector", theorem="Lockset.Model.protected_except_all on gen/Accesses.v + race harness")
